@@ -17,7 +17,7 @@ from harness.props.c14 import C14, spec_meta, simple_pattern
 
 INC = '_tape_recorder_incomplete_recording'
 K3 = 's3-filter-non-json-native-metadata'
-CATS = ['Op', 'OpB', 'Op_x', 'O', 'Q', 'Op.v2', 'svc.ops.Invoice']
+CATS = ['Op', 'OpB', 'Op_x', 'O', 'Q', 'Op.v2', 'svc.ops.Invoice', 'Batch[Order]', 'svc:op', 'q*x?']
 PREFIXES = ['', 'p', 'xmetadata', 'a/b']
 MD_KEYS = ['a', 'b', 'c', 'dd']
 STORES = ('mem', 'file', 's3')
@@ -218,7 +218,7 @@ class C10(Prop):
                       'lookup and cassette; mem and s3 compared as exact ordered id lists, file as a set (no limit) or a '
                       'size (limit) because os.listdir order is arbitrary; S3 facade listing of the one category prefix '
                       'compared with the model\'s S3 answer)')
-    RULE = ('stores of 0-12 recordings over the categories Op, OpB, Op_x, O, Q, Op.v2, svc.ops.Invoice (prefixes of one another, underscores, dots) saved '
+    RULE = ('stores of 0-12 recordings over the categories Op, OpB, Op_x, O, Q, Op.v2, svc.ops.Invoice, Batch[Order], svc:op, q*x? (prefixes of one another, underscores, dots, glob and path metacharacters) saved '
             'in the same order on an in-memory, a file based and an S3 cassette (fake bucket, key prefixes \'\', p, '
             'xmetadata, a/b, foreign objects next to the cassette\'s own); metadata over a small key set with absent keys, '
             'heterogeneous values and the incomplete-recording key absent/False/True/None/0/\'x\'; ~6 lookups per store: '
